@@ -28,7 +28,11 @@ func lexToks(src []byte) hclsyntax.Tokens {
 	return toks
 }
 
-// facts about the native parse used to classify known shapes
+// facts about the native parse used to classify three shapes precisely:
+// "index-key-bool-null-dropped", "label-with-template-char-dropped" and
+// "comment-before-first-label-dropped". They were genuine defects, repaired in
+// /repo by d13351c, 984f1c6 and 1b2807b; they are ordinary failures now and
+// must no longer occur.
 type nativeFacts struct {
 	unsupportedKeys []hcl.Range // bracket ranges of TraverseIndex steps with bool/null keys
 	preLabelGaps    []hcl.Range // [TypeRange.End, LabelRanges[0].Start) of every labelled block
